@@ -30,7 +30,7 @@ func init() {
 			"fresh-process, non-recycling executions are the oracle for the follow-up calls",
 			"every k reached by the workload is enumerated; workloads themselves are sampled",
 		},
-		quick: 40, thorough: 800,
+		quick: 30, thorough: 600,
 	}})
 }
 
